@@ -4110,9 +4110,9 @@ let w_hd w =
   upd_live (upd_sess w (sess_handle_disconnect w.w_sess)) w.w_conn false
     w.w_event
 
-(** val broker_reply : bytes -> bytes **)
+(** val broker_reply : n -> bytes -> bytes **)
 
-let broker_reply = function
+let broker_reply mode = function
 | [] -> []
 | h :: t ->
   let typ = N.div h (Npos (XO (XO (XO (XO XH))))) in
@@ -4170,12 +4170,22 @@ let broker_reply = function
                     else if N.eqb typ (Npos (XO (XO (XI XH))))
                          then (Npos (XO (XO (XO (XO (XI (XO (XI
                                 XH)))))))) :: (N0 :: [])
-                         else []
+                         else if (&&) (N.eqb typ (Npos XH))
+                                   (N.eqb mode (Npos (XO XH)))
+                              then (match dropN (Npos (XI (XI XH))) body with
+                                    | [] -> []
+                                    | fl :: _ ->
+                                      (Npos (XO (XO (XO (XO (XO
+                                        XH)))))) :: ((Npos (XI
+                                        XH)) :: ((if N.testbit fl (Npos XH)
+                                                  then N0
+                                                  else Npos XH) :: (N0 :: (N0 :: [])))))
+                              else []
    | _ -> [])
 
-(** val broker_split : nat -> bytes -> bytes -> bytes * bytes **)
+(** val broker_split : n -> nat -> bytes -> bytes -> bytes * bytes **)
 
-let rec broker_split fuel buf acc =
+let rec broker_split mode fuel buf acc =
   match fuel with
   | O -> (acc, buf)
   | S f ->
@@ -4189,8 +4199,8 @@ let rec broker_split fuel buf acc =
           else let total =
                  N.add (N.add (Npos XH) (N.sub (lenN t) (lenN body))) n0
                in
-               broker_split f (dropN total buf)
-                 (app acc (broker_reply (takeN total buf)))
+               broker_split mode f (dropN total buf)
+                 (app acc (broker_reply mode (takeN total buf)))
         | VErrShort -> (acc, buf)
         | VErrBad -> (acc, [])))
 
@@ -4200,7 +4210,8 @@ let broker_feed w accepted =
   if N.eqb w.w_broker N0
   then w
   else let buf = app w.w_txbuf accepted in
-       let (replies, rest) = broker_split (S (length buf)) buf [] in
+       let (replies, rest) = broker_split w.w_broker (S (length buf)) buf []
+       in
        let w1 = upd_txbuf w rest in
        (match replies with
         | [] -> w1
